@@ -710,13 +710,13 @@ func init() {
 		var items []AdmitItem
 		for _, b := range bases {
 			for from := 0; from < 70; from += chunk {
-				items = append(items, AdmitItem{Base: b, From: from, To: from + chunk, Pairs: th})
+				items = append(items, AdmitItem{Base: b, From: from, To: from + chunk, Pairs: true})
 			}
 		}
 		// a hashgraph that was Reset to block 1 / 2 of the static n=3 history (fast-sync), 0..24 further events on top
 		for _, blk := range []int{1, 2} {
 			for from := 0; from < 24; from += chunk {
-				items = append(items, AdmitItem{Base: "static:3:45", From: from, To: from + chunk, Pairs: th, Reset: blk + 1})
+				items = append(items, AdmitItem{Base: "static:3:45", From: from, To: from + chunk, Pairs: true, Reset: blk + 1})
 			}
 		}
 		raw := make([]json.RawMessage, len(items))
